@@ -234,6 +234,22 @@ class Parser:
         if k == "id" and self.env.get(x) == "N" and x2 == ")":
             self.next()
             return f"(SNum.ofNat {x})"
+        # a pure usize expression (identifiers of kind N, integer literals, + - * / and parentheses): usize arithmetic first
+        j, depth, toks = self.i, 0, []
+        while j < len(self.t):
+            kk, xx = self.t[j]
+            if xx == "(":
+                depth += 1
+            elif xx == ")":
+                if depth == 0:
+                    break
+                depth -= 1
+            toks.append((kk, xx))
+            j += 1
+        if toks and all((kk == "id" and self.env.get(xx) == "N") or kk == "int" or xx in "+-*/()" for kk, xx in toks) \
+                and any(kk == "id" for kk, xx in toks):
+            self.i = j
+            return "(SNum.ofNat (" + " ".join(xx for kk, xx in toks) + "))"
         inner = self.expr("C")
         return f"(SNum.ofCtl {inner})"
 
@@ -385,6 +401,52 @@ def gen_nearest_offsets(item="G5.nearest_offsets"):
     _, body2 = fn_body(src, "get_nearest_times_2", item)
     if not re.search(r"subindex\s*\+=\s*1\s*;", body2):
         raise TranslateError(item, "get_nearest_times_2: second point is not subindex+1")
+    # the scalar statements and the wrap blocks of all four functions (statement-level translation)
+    ws = r"\s*"
+    loc = {"t": "F", "factor": "I"}
+    WRAP_UP = r"if" + ws + r"subindex" + ws + r">=" + ws + r"factor" + ws + r"\{" + ws + r"subindex" + ws + r"-=" + ws + r"factor;" + ws + r"index" + ws + r"\+=" + ws + r"1;" + ws + r"\}"
+    WRAP_BOTH = (r"if" + ws + r"subindex" + ws + r"<" + ws + r"0" + ws + r"\{" + ws + r"subindex" + ws + r"\+=" + ws + r"factor;" + ws + r"index" + ws + r"-=" + ws + r"1;" + ws + r"\}" + ws +
+                 r"else" + ws + WRAP_UP)
+
+    def texpr(text, what):
+        te = TExpr(lex(text, item), item + "." + what, loc, {})
+        e = te.expr()
+        te.done()
+        if e[1] != "I":
+            raise TranslateError(item + "." + what, f"not an isize expression: {text}")
+        return e[0]
+    defs = []
+    # get_nearest_times_2
+    m2 = re.match(ws + r"let" + ws + r"mut" + ws + r"index" + ws + r"=" + ws + r"(.*?);" + ws + r"let" + ws + r"mut" + ws + r"subindex" + ws + r"=" + ws + r"(.*?);" + ws +
+                  r"points\[0\]" + ws + r"=" + ws + r"\(index," + ws + r"subindex\);" + ws + r"subindex" + ws + r"\+=" + ws + r"1;" + ws + WRAP_UP + ws +
+                  r"points\[1\]" + ws + r"=" + ws + r"\(index," + ws + r"subindex\);" + ws + r"$", body2, re.S)
+    if not m2:
+        raise TranslateError(item + ".times_2", "get_nearest_times_2 does not have the expected statement structure")
+    defs.append(("times2_index", texpr(m2.group(1), "times_2")))
+    defs.append(("times2_subindex", texpr(m2.group(2), "times_2")))
+    for n in (3, 4):
+        _, bodyn = fn_body(src, f"get_nearest_times_{n}", item)
+        mn = re.match(ws + r"let" + ws + r"start" + ws + r"=" + ws + r"(.*?);" + ws + r"let" + ws + r"frac" + ws + r"=" + ws + r"(.*?);" + ws +
+                      r"let" + ws + r"mut" + ws + r"index;" + ws + r"let" + ws + r"mut" + ws + r"subindex;" + ws +
+                      r"for" + ws + r"\(idx," + ws + r"sub\)" + ws + r"in" + ws + r"\(-?\d+\.\.-?\d+\)\.enumerate\(\)" + ws + r"\{" + ws +
+                      r"index" + ws + r"=" + ws + r"start;" + ws + r"subindex" + ws + r"=" + ws + r"frac" + ws + r"\+" + ws + r"sub;" + ws + WRAP_BOTH + ws +
+                      r"points\[idx\]" + ws + r"=" + ws + r"\(index," + ws + r"subindex\);" + ws + r"\}" + ws + r"$", bodyn, re.S)
+        if not mn:
+            raise TranslateError(item + f".times_{n}", f"get_nearest_times_{n} does not have the expected statement structure")
+        defs.append((f"times{n}_start", texpr(mn.group(1), f"times_{n}")))
+        defs.append((f"times{n}_frac", texpr(mn.group(2), f"times_{n}")))
+    _, body1 = fn_body(src, "get_nearest_time", item)
+    m1 = re.match(ws + r"let" + ws + r"mut" + ws + r"index" + ws + r"=" + ws + r"(.*?);" + ws + r"let" + ws + r"mut" + ws + r"subindex" + ws + r"=" + ws + r"(.*?);" + ws +
+                  WRAP_UP + ws + r"\(index," + ws + r"subindex\)" + ws + r"$", body1, re.S)
+    if not m1:
+        raise TranslateError(item + ".time", "get_nearest_time does not have the expected statement structure")
+    defs.append(("time_index", texpr(m1.group(1), "time")))
+    defs.append(("time_subindex", texpr(m1.group(2), "time")))
+    for nm, e in defs:
+        out.append(f"/-- interpolation.rs: {nm.replace('_', ': ')} (the wrap blocks `if subindex >= factor {{..}}` / `if subindex < 0 {{..}} else if ..` are checked on the text) -/")
+        out.append(f"def {nm} {{ρ : Type}} [RNum ρ] (t : ρ) (factor : Int) : Int :=")
+        out.append(f"  {e}")
+        out.append("")
     out.append("/-- first sub-sample offset (relative to ⌊frac·f⌋) used by get_nearest_times_k -/")
     out.append("def nearestFirstOffset : Nat → Int")
     out.append("  | 2 => 0")
@@ -851,7 +913,7 @@ class TExpr:
                 e = self.cast(e, ty)
             elif x == ".":
                 k2, name = self.t[self.i + 1]
-                if name in ("ceil", "floor"):
+                if name in ("ceil", "floor", "round"):
                     self.i += 2
                     self.expect("(")
                     self.expect(")")
@@ -1524,6 +1586,76 @@ def gen_validation(item="G10.validation"):
     return "\n".join(out)
 
 
+# ------------------------------------------------------------------------------------------ G11: sinc.rs
+def gen_sinc_rs(item="G11.sinc_rs"):
+    """sinc.rs: the sinc function, the argument handed to it by make_sincs, and (checked on the text) the structure of
+    make_sincs: window over npoints*factor points, running sum, normalisation by sum/factor, polyphase layout."""
+    src = strip_comments(read("sinc.rs"))
+    cut = src.find("#[cfg(test)]")
+    if cut >= 0:
+        src = src[:cut]
+    _, sb = fn_body(src, "sinc", item + ".sinc")
+    m = re.match(r"\s*if\s+value\s*==\s*T::zero\(\)\s*\{(.*?)\}\s*else\s*\{(.*?)\}\s*$", sb, re.S)
+    if not m:
+        raise TranslateError(item + ".sinc", "sinc() is not `if value == T::zero() { .. } else { .. }`")
+    pa = Parser(lex(m.group(1).strip(), item), item + ".sinc", {"value": "S"})
+    ea = pa.expr("S")
+    pa.done()
+    pb = Parser(lex(m.group(2).strip(), item), item + ".sinc", {"value": "S"})
+    eb = pb.expr("S")
+    pb.done()
+    out = ["/-- `sinc.rs::sinc` -/",
+           "def sinc_fn {ρ σ : Type} [RNum ρ] [SNum ρ σ] [STrig σ] (value : σ) : σ :=",
+           f"  if SNum.isZero (ρ := ρ) value then {ea} else {eb}", ""]
+    _, mb = fn_body(src, "make_sincs", item + ".make_sincs")
+    mb = strip_log_macros(mb)
+    k = mb.find("sinc(")
+    if k < 0:
+        raise TranslateError(item + ".make_sincs", "call of sinc( not found")
+    depth, j = 1, k + len("sinc(")
+    while depth:
+        if mb[j] == "(":
+            depth += 1
+        elif mb[j] == ")":
+            depth -= 1
+        j += 1
+    arg = mb[k + len("sinc("):j - 1].strip().rstrip(",").strip()
+    pc = Parser(lex(arg, item), item + ".make_sincs", {"x": "N", "totpoints": "N", "factor": "N", "npoints": "N", "f_cutoff": "C"})
+    earg = pc.expr("S")
+    pc.done()
+    out += ["/-- make_sincs: the argument of `sinc` at prototype point `x` -/",
+            "def sinc_arg {ρ σ : Type} [RNum ρ] [SNum ρ σ] (x totpoints factor : Nat) (f_cutoff : ρ) : σ :=",
+            f"  {earg}", ""]
+    ws = r"\s*"
+    checks = [
+        (r"let" + ws + r"totpoints" + ws + r"=" + ws + r"npoints" + ws + r"\*" + ws + r"factor" + ws + r";", "totpoints = npoints * factor"),
+        (r"let" + ws + r"window" + ws + r"=" + ws + r"make_window::<T>\(" + ws + r"totpoints," + ws + r"windowfunc" + ws + r"\);", "window over totpoints points"),
+        (r"let" + ws + r"mut" + ws + r"sum" + ws + r"=" + ws + r"T::zero\(\);", "sum starts at zero"),
+        (r"for" + ws + r"\(x," + ws + r"w\)" + ws + r"in" + ws + r"window\.iter\(\)\.enumerate\(\)\.take\(totpoints\)" + ws + r"\{" + ws +
+         r"let" + ws + r"val" + ws + r"=" + ws + r"\*w" + ws + r"\*" + ws + r"sinc\(", "val = w[x] * sinc(..) for every x < totpoints"),
+        (r"sum" + ws + r"\+=" + ws + r"val;" + ws + r"y\.push\(val\);" + ws + r"\}", "sum += val; y.push(val)"),
+        (r"sum" + ws + r"/=" + ws + r"T::coerce\(factor\);", "sum /= factor"),
+        (r"for" + ws + r"p" + ws + r"in" + ws + r"0\.\.npoints" + ws + r"\{" + ws + r"for" + ws + r"n" + ws + r"in" + ws + r"0\.\.factor" + ws + r"\{" + ws +
+         r"sincs\[(.*?)\]\[p\]" + ws + r"=" + ws + r"y\[(.*?)\]" + ws + r"/" + ws + r"sum;", "sincs[row][p] = y[src] / sum"),
+        (r"let" + ws + r"mut" + ws + r"sincs" + ws + r"=" + ws + r"vec!\[vec!\[T::zero\(\);" + ws + r"npoints\];" + ws + r"factor\];", "factor rows of npoints taps"),
+    ]
+    rowsrc = None
+    for pat, what in checks:
+        mm = re.search(pat, mb, re.S)
+        if not mm:
+            raise TranslateError(item + ".make_sincs", f"make_sincs: expected statement not found: {what}")
+        if mm.groups():
+            rowsrc = mm.groups()
+    for nm, text in (("sincs_row", rowsrc[0]), ("sincs_src", rowsrc[1])):
+        te = TExpr(lex(text, item), item + ".make_sincs", {"factor": "N", "n": "N", "p": "N"}, {})
+        e = te.expr()
+        te.done()
+        if e[1] != "N":
+            raise TranslateError(item + ".make_sincs", f"{nm}: not a usize expression")
+        out += [f"/-- make_sincs: `{text.strip()}` -/", f"def {nm} (factor p n : Nat) : Nat :=", f"  {e[0]}", ""]
+    return "\n".join(out)
+
+
 def generate():
     parts = [HEADER]
     parts.append("namespace Fast")
@@ -1555,6 +1687,9 @@ def generate():
     parts.append("namespace Effects")
     parts.append(gen_effects())
     parts.append("end Effects\n")
+    parts.append("namespace SincRs")
+    parts.append(gen_sinc_rs())
+    parts.append("end SincRs\n")
     parts.append("namespace Validation")
     parts.append(gen_validation())
     parts.append("end Validation\n")
